@@ -44,7 +44,6 @@ impl MT299 {
 
         verify_parser_complete(&parser)?;
 
-
         Ok(MT299 {
             field_20,
             field_21,
